@@ -67,6 +67,54 @@ impl Cfg {
     }
 }
 
+/// one client operation of a concurrent run: kind 0 write, 1 delete, 2 contains, 3 read
+#[derive(Clone, Debug)]
+pub struct ConcEv {
+    kind: u8,
+    key: usize,
+    ts: u64,
+    inv: u64,
+    resp: u64,
+    res_kind: u8,
+    res_ts: u64,
+    ok: bool,
+}
+
+/// polls the inner future at most `left` times, then gives up and drops it (cancellation at a suspension point)
+struct PollN<F: std::future::Future> {
+    fut: Option<std::pin::Pin<Box<F>>>,
+    left: usize,
+    polls: usize,
+}
+
+impl<F: std::future::Future> std::future::Future for PollN<F> {
+    type Output = (Option<F::Output>, usize);
+    fn poll(mut self: std::pin::Pin<&mut Self>, cx: &mut std::task::Context<'_>) -> std::task::Poll<Self::Output> {
+        let this = &mut *self;
+        if this.left == 0 {
+            this.fut = None;
+            return std::task::Poll::Ready((None, this.polls));
+        }
+        this.left -= 1;
+        this.polls += 1;
+        let r = this.fut.as_mut().expect("polled after completion").as_mut().poll(cx);
+        match r {
+            std::task::Poll::Ready(v) => {
+                this.fut = None;
+                std::task::Poll::Ready((Some(v), this.polls))
+            }
+            std::task::Poll::Pending => {
+                if this.left == 0 {
+                    this.fut = None; // drop the operation future here
+                    std::task::Poll::Ready((None, this.polls))
+                } else {
+                    std::task::Poll::Pending
+                }
+            }
+        }
+    }
+}
+
 pub trait Scen {
     fn step(&mut self, line: &str) -> String;
     fn finish(&mut self, keep: bool);
@@ -82,6 +130,9 @@ pub struct ScenN<const N: usize> {
     keys: std::collections::BTreeSet<String>,
     snap: HashMap<String, Vec<u8>>,
     snap_ids: std::collections::BTreeSet<usize>,
+    conc_prev: Vec<ConcEv>,
+    conc_clock: u64,
+    conc_ts: u64,
 }
 
 fn parse_meta(s: &str) -> Option<Option<Meta>> {
@@ -124,7 +175,7 @@ impl<const N: usize> ScenN<N> {
                 .build()
                 .unwrap()
         };
-        ScenN { rt, st: None, cfg, dir, data: HashMap::new(), dead: None, keys: Default::default(), snap: HashMap::new(), snap_ids: Default::default() }
+        ScenN { rt, st: None, cfg, dir, data: HashMap::new(), dead: None, keys: Default::default(), snap: HashMap::new(), snap_ids: Default::default(), conc_prev: Vec::new(), conc_clock: 1, conc_ts: 1000 }
     }
 
     fn builder(&self) -> Builder {
@@ -430,6 +481,253 @@ impl<const N: usize> ScenN<N> {
             off += hsz + ms + ds;
         }
         out
+    }
+
+    /// bytes written by concurrent clients: they identify key and timestamp, so a read can be attributed
+    fn conc_data(key: &[u8], ts: u64, len: usize) -> Vec<u8> {
+        let mut v = ts.to_le_bytes().to_vec();
+        v.extend_from_slice(key);
+        let fill = gen_data(len, ts % 251);
+        v.extend_from_slice(&fill);
+        v
+    }
+
+    /// `conc <clients> <ops per client> <seed> [maint]`: N client tasks write / read / probe / delete a small key
+    /// pool concurrently (unique increasing timestamps), optionally with a maintenance task closing / creating /
+    /// restoring the active blob, syncing and dumping.  Afterwards: every completed probe is checked against the
+    /// invocation/response order (never older than every write acknowledged before it started, never a value that was
+    /// not written), reads returned bytes written to that key, no acknowledged write is missing from the blob files,
+    /// every blob file parses completely (records neither overlap nor interleave), and the final answers equal the
+    /// sequential outcome of the acknowledged operations.
+    fn conc(&mut self, toks: &[&str]) -> String {
+        use std::sync::atomic::{AtomicU64, Ordering as AO};
+        use std::sync::{Arc, Mutex};
+        let clients: usize = toks.get(1).and_then(|x| x.parse().ok()).unwrap_or(8);
+        let nops: usize = toks.get(2).and_then(|x| x.parse().ok()).unwrap_or(20);
+        let seed: u64 = toks.get(3).and_then(|x| x.parse().ok()).unwrap_or(1);
+        let maint = toks.iter().any(|t| *t == "maint");
+        let writes_only = toks.iter().any(|t| *t == "writes");
+        let st = match self.st.take() {
+            Some(s) => Arc::new(s),
+            None => return "err NoStorage".into(),
+        };
+        // key pool: keys already used in the scenario plus a few fresh ones
+        let mut pool: Vec<Vec<u8>> = Vec::new();
+        for i in 0..4u8 {
+            let mut k = vec![0xc0u8; N];
+            k[N - 1] = i;
+            pool.push(k);
+        }
+        let pool = Arc::new(pool);
+        // clocks and timestamps continue across the concurrent runs of one scenario
+        let clock = Arc::new(AtomicU64::new(self.conc_clock.max(1)));
+        let tsgen = Arc::new(AtomicU64::new(self.conc_ts.max(1_000)));
+        // history: (kind, key index, ts, invocation, response, result)   kind: 0 write 1 delete 2 contains 3 read
+        type Ev = ConcEv;
+        let hist: Arc<Mutex<Vec<Ev>>> = Arc::new(Mutex::new(std::mem::take(&mut self.conc_prev)));
+        let run = async {
+            let mut handles = Vec::new();
+            for c in 0..clients {
+                let st = st.clone();
+                let pool = pool.clone();
+                let clock = clock.clone();
+                let tsgen = tsgen.clone();
+                let hist = hist.clone();
+                handles.push(tokio::spawn(async move {
+                    let mut x: u64 = (seed.wrapping_mul(0x9E37_79B9_7F4A_7C15) ^ (c as u64 + 1).wrapping_mul(0xD1B5_4A32_D192_ED03)) | 1;
+                    let mut rnd = move || { x ^= x << 13; x ^= x >> 7; x ^= x << 17; x };
+                    for _ in 0..nops {
+                        let ki = (rnd() % pool.len() as u64) as usize;
+                        let key = ArrayKey::<N>::from(pool[ki].clone());
+                        let r = if writes_only { 0 } else { rnd() % 100 };
+                        let inv = clock.fetch_add(1, AO::SeqCst);
+                        let mut ev = Ev { kind: 0, key: ki, ts: 0, inv, resp: 0, res_kind: 0, res_ts: 0, ok: true };
+                        if r < 55 {
+                            let ts = tsgen.fetch_add(1, AO::SeqCst);
+                            let len = [0usize, 10, 100, 5000][(rnd() % 4) as usize];
+                            let data = Self::conc_data(&pool[ki], ts, len);
+                            ev.kind = 0;
+                            ev.ts = ts;
+                            ev.ok = st.write(&key, Bytes::from(data), BlobRecordTimestamp::new(ts)).await.is_ok();
+                        } else if r < 65 {
+                            let ts = tsgen.fetch_add(1, AO::SeqCst);
+                            ev.kind = 1;
+                            ev.ts = ts;
+                            ev.ok = st.delete(&key, BlobRecordTimestamp::new(ts), false).await.is_ok();
+                        } else if r < 85 {
+                            ev.kind = 2;
+                            match st.contains(&key).await {
+                                Ok(ReadResult::Found(t)) => { ev.res_kind = 1; ev.res_ts = t.into(); }
+                                Ok(ReadResult::Deleted(t)) => { ev.res_kind = 2; ev.res_ts = t.into(); }
+                                Ok(ReadResult::NotFound) => { ev.res_kind = 0; }
+                                Err(_) => { ev.ok = false; }
+                            }
+                        } else {
+                            ev.kind = 3;
+                            match st.read(&key).await {
+                                Ok(ReadResult::Found(b)) => {
+                                    // the bytes must be exactly what some write to this key produced
+                                    if b.len() >= 8 + N && b[8..8 + N] == pool[ki][..] {
+                                        let mut t8 = [0u8; 8];
+                                        t8.copy_from_slice(&b[..8]);
+                                        let t = u64::from_le_bytes(t8);
+                                        let len = b.len() - 8 - N;
+                                        if Self::conc_data(&pool[ki], t, len) == b[..] { ev.res_kind = 1; ev.res_ts = t; } else { ev.res_kind = 9; }
+                                    } else { ev.res_kind = 9; }
+                                }
+                                Ok(ReadResult::Deleted(t)) => { ev.res_kind = 2; ev.res_ts = t.into(); }
+                                Ok(ReadResult::NotFound) => { ev.res_kind = 0; }
+                                Err(_) => { ev.ok = false; }
+                            }
+                        }
+                        ev.resp = clock.fetch_add(1, AO::SeqCst);
+                        hist.lock().unwrap().push(ev);
+                    }
+                }));
+            }
+            let stop = Arc::new(std::sync::atomic::AtomicBool::new(false));
+            let mh = if maint {
+                let st = st.clone();
+                let stop = stop.clone();
+                Some(tokio::spawn(async move {
+                    let mut x: u64 = seed | 1;
+                    let mut rnd = move || { x ^= x << 13; x ^= x >> 7; x ^= x << 17; x };
+                    while !stop.load(AO::SeqCst) {
+                        match rnd() % 6 {
+                            0 => { let _ = st.try_close_active_blob().await; }
+                            1 => { let _ = st.try_create_active_blob().await; }
+                            2 => { let _ = st.try_restore_active_blob().await; }
+                            3 => { let _ = st.fsyncdata().await; }
+                            4 => { let _ = st.free_excess_resources().await; }
+                            _ => { st.force_update_active_blob(|_| true).await; }
+                        }
+                        tokio::time::sleep(Duration::from_millis(1 + rnd() % 4)).await;
+                    }
+                }))
+            } else { None };
+            for h in handles {
+                let _ = h.await;
+            }
+            stop.store(true, AO::SeqCst);
+            if let Some(h) = mh {
+                let _ = h.await;
+            }
+        };
+        let budget = if clients > 500 { 40 } else { 90 };
+        let finished = self.rt.block_on(async { tokio::time::timeout(Duration::from_secs(budget), run).await.is_ok() });
+        if !finished {
+            self.dead = Some("StepTimeout".into());
+            std::mem::forget(st);
+            return format!("sweep bad deadlock: {} clients did not finish within {} s", clients, budget);
+        }
+        let st = match Arc::try_unwrap(st) {
+            Ok(s) => s,
+            Err(_) => return "err StorageStillShared".into(),
+        };
+        self.rt.block_on(async { Self::quiesce(&st).await });
+        let h = hist.lock().unwrap().clone();
+        self.conc_prev = h.clone();
+        self.conc_clock = clock.load(AO::SeqCst) + 1;
+        self.conc_ts = tsgen.load(AO::SeqCst) + 1;
+        let total = h.len();
+        // 1. probes / reads against the invocation-response order
+        let mut bad: Option<String> = None;
+        for e in h.iter().filter(|e| (e.kind == 2 || e.kind == 3) && e.ok) {
+            if e.res_kind == 9 {
+                bad = Some(format!("read of key {} returned bytes that no write to that key produced", e.key));
+                break;
+            }
+            // latest update (write or delete) acknowledged before this operation started
+            let before: Option<&Ev> = h.iter().filter(|w| w.kind <= 1 && w.ok && w.key == e.key && w.resp < e.inv).max_by_key(|w| w.ts);
+            // updates that could be visible: invoked before this operation responded
+            let visible = |ts: u64, del: bool| h.iter().any(|w| w.kind == (if del { 1 } else { 0 }) && w.key == e.key && w.ts == ts && w.inv < e.resp);
+            match e.res_kind {
+                0 => {
+                    if before.is_some() {
+                        bad = Some(format!("key {}: NotFound although an update (ts {}) was acknowledged before the read started", e.key, before.unwrap().ts));
+                    }
+                }
+                1 | 2 => {
+                    if !visible(e.res_ts, e.res_kind == 2) {
+                        bad = Some(format!("key {}: result ts {} ({}) was not written by any operation invoked before the response", e.key, e.res_ts, if e.res_kind == 2 { "deleted" } else { "found" }));
+                    } else if let Some(b) = before {
+                        if e.res_ts < b.ts {
+                            bad = Some(format!("key {}: stale result ts {} although ts {} was acknowledged before the read started", e.key, e.res_ts, b.ts));
+                        }
+                    }
+                }
+                _ => {}
+            }
+            if bad.is_some() {
+                break;
+            }
+        }
+        // 2. files: complete parse, no overlap, every acknowledged write present
+        let mut on_disk: std::collections::HashSet<(Vec<u8>, u64, bool)> = Default::default();
+        if bad.is_none() {
+            if let Ok(rd) = std::fs::read_dir(&self.dir) {
+                for e in rd.flatten() {
+                    let p = e.path();
+                    if p.extension().map_or(false, |x| x == "blob") {
+                        let b = std::fs::read(&p).unwrap_or_default();
+                        let lay = Self::parse_blob_full(&b);
+                        let end = lay.last().map(|(s0, h, m, d)| s0 + h + m + d).unwrap_or(20.min(b.len()));
+                        if end != b.len() {
+                            bad = Some(format!("{} does not parse completely: records end at {}, file has {} bytes", p.file_name().unwrap().to_string_lossy(), end, b.len()));
+                            break;
+                        }
+                        if pearl::tools::validate_blob(&p).is_err() {
+                            bad = Some(format!("{} fails validation after the concurrent run", p.file_name().unwrap().to_string_lossy()));
+                            break;
+                        }
+                        for (k, ts, fl, _) in Self::parse_records(&b) {
+                            on_disk.insert((k, ts, fl & 1 == 1));
+                        }
+                    }
+                }
+            }
+        }
+        if bad.is_none() {
+            for w in h.iter().filter(|w| w.kind == 0 && w.ok) {
+                if !on_disk.contains(&(pool[w.key].clone(), w.ts, false)) {
+                    bad = Some(format!("acknowledged write key {} ts {} is in no blob file", w.key, w.ts));
+                    break;
+                }
+            }
+        }
+        self.st = Some(st);
+        // 3. final state = sequential outcome of the acknowledged updates
+        if bad.is_none() {
+            for ki in 0..pool.len() {
+                let mut ups: Vec<(u64, bool)> = h.iter().filter(|w| w.kind <= 1 && w.ok && w.key == ki).map(|w| (w.ts, w.kind == 1)).collect();
+                ups.sort_by(|a, b| b.0.cmp(&a.0));
+                let mut want: Vec<(u64, bool)> = Vec::new();
+                for u in ups {
+                    want.push(u);
+                    if u.1 {
+                        break;
+                    }
+                }
+                let o = self.exec(&format!("ram {}", bytes_hex(&pool[ki])));
+                let got: Vec<(u64, bool)> = if o == "list" { vec![] } else {
+                    o[5..].split(';').filter_map(|it| {
+                        let f: Vec<&str> = it.split(',').collect();
+                        Some((f.get(0)?.parse().ok()?, *f.get(1)? == "1"))
+                    }).collect()
+                };
+                // failed (unacknowledged) updates may or may not be there: compare on acknowledged ones only when all succeeded
+                let all_ok = h.iter().all(|w| w.ok);
+                if all_ok && got != want {
+                    bad = Some(format!("key {}: final version list {:?} differs from the sequential outcome {:?}", ki, got, want));
+                    break;
+                }
+            }
+        }
+        let failed = h.iter().filter(|e| !e.ok).count();
+        match bad {
+            None => format!("sweep ok n={} failed={}", total, failed),
+            Some(b) => format!("sweep bad {}", b),
+        }
     }
 
     /// `killcheck <ackfile>`: the directory was left behind by a process killed with SIGKILL.  `ackfile` lists the
@@ -1312,11 +1610,14 @@ impl<const N: usize> ScenN<N> {
         if toks[0] == "crashsweep" {
             return self.crashsweep(&toks);
         }
+        if toks[0] == "conc" {
+            return self.conc(&toks);
+        }
         if toks[0] == "killcheck" && toks.len() >= 2 {
             return self.killcheck(toks[1]);
         }
         if toks[0] == "restart" || toks[0] == "close" {
-            let lazy = toks.len() > 1 && toks[1] == "lazy";
+            let lazy = toks.iter().skip(1).any(|t| *t == "lazy");
             if let Some(st) = self.st.take() {
                 let r = self.rt.block_on(async { tokio::time::timeout(Duration::from_secs(60), st.close()).await });
                 match r {
@@ -1332,6 +1633,15 @@ impl<const N: usize> ScenN<N> {
             }
             if toks[0] == "close" {
                 return "ok".into();
+            }
+            if toks.iter().any(|t| *t == "noidx") {
+                if let Ok(rd) = std::fs::read_dir(&self.dir) {
+                    for e in rd.flatten() {
+                        if e.path().extension().map_or(false, |x| x == "index") {
+                            let _ = std::fs::remove_file(e.path());
+                        }
+                    }
+                }
             }
             for t in toks.iter().skip(1) {
                 if let Some(spec) = t.strip_prefix("bdmg=") {
@@ -1353,13 +1663,48 @@ impl<const N: usize> ScenN<N> {
             if self.st.is_some() {
                 return "err AlreadyOpen".into();
             }
-            let lazy = toks.len() > 1 && toks[1] == "lazy";
+            let lazy = toks.iter().skip(1).any(|t| *t == "lazy");
             return self.open(lazy);
         }
         if toks[0] == "wait" {
             let ms: u64 = toks.get(1).and_then(|x| x.parse().ok()).unwrap_or(0);
             std::thread::sleep(Duration::from_millis(ms));
             return "ok".into();
+        }
+        if toks[0] == "cancel" && toks.len() >= 3 {
+            // cancel <k> <op...>: poll the operation future k times, then drop it; detached blocking closures finish
+            let k: usize = toks[1].parse().unwrap_or(1);
+            let inner: Vec<String> = toks[2..].iter().map(|x| x.to_string()).collect();
+            let mut st = match self.st.take() {
+                Some(s) => s,
+                None => return "err NoStorage".into(),
+            };
+            let dir = self.dir.clone();
+            let mut data_tab = std::mem::take(&mut self.data);
+            let res = self.rt.block_on(async {
+                let toks2: Vec<&str> = inner.iter().map(|x| x.as_str()).collect();
+                let fut = Self::exec_async(&mut st, &dir, &toks2, &mut data_tab);
+                let r = tokio::time::timeout(Duration::from_secs(60), PollN { fut: Some(Box::pin(fut)), left: k, polls: 0 }).await;
+                r
+            });
+            // wait for closures that were already started (they are not cancelled with the future)
+            self.rt.block_on(async {
+                let deadline = tokio::time::Instant::now() + Duration::from_secs(20);
+                while pearl::verif::inflight() != 0 && tokio::time::Instant::now() < deadline {
+                    tokio::time::sleep(Duration::from_millis(1)).await;
+                }
+                Self::quiesce(&st).await;
+            });
+            self.data = data_tab;
+            self.st = Some(st);
+            return match res {
+                Err(_) => {
+                    self.dead = Some("StepTimeout".into());
+                    "err StepTimeout".into()
+                }
+                Ok((Some(out), polls)) => format!("{} polls={}", out, polls),
+                Ok((None, polls)) => format!("cancelled polls={}", polls),
+            };
         }
         let mut st = match self.st.take() {
             Some(s) => s,
@@ -1655,6 +2000,19 @@ impl<const N: usize> ScenN<N> {
                 s
             }
             "corrupted" => format!("n={}", st.corrupted_blobs_count()),
+            "corruptedx" => {
+                // quarantined blobs, and how many of them never held a complete blob header (a blob creation that was
+                // interrupted between creating the file and writing its header)
+                let mut short = 0;
+                if let Ok(rd) = std::fs::read_dir(dir.join("corrupted")) {
+                    for e in rd.flatten() {
+                        if e.path().extension().map_or(false, |x| x == "blob") && e.metadata().map(|m| m.len()).unwrap_or(0) < 20 {
+                            short += 1;
+                        }
+                    }
+                }
+                format!("n={} short={}", st.corrupted_blobs_count(), short)
+            }
             "settle" => Self::settle(st).await,
             "quiesce" => {
                 Self::quiesce(st).await;
